@@ -232,7 +232,7 @@ def _judge_policy_run(world: dict, r: runner.Result, out: dict, c: T.Callable, p
             # online rules decided by the REFERENCE's notion of forced / nofallback, on the monitor's events
             evs = per[i - 1] if i - 1 < len(per) else None
             if evs is None:
-                c('A:lookup-without-monitor-events')
+                c('A:call-rejected-before-lookup')
             else:
                 inner = [e for e in evs]
                 if facts.get('system_must_not_be_consulted') and tag == 'doc':
